@@ -156,6 +156,9 @@ package identify
 //@ ensures result1 == nil ==> called(NewStream, 0) && arg(NewStream, 0, 0) == c && ret(NewStream, 0, 1) == nil && result0 == ret(NewStream, 0, 0)
 //@ ensures result1 == nil ==> called(SelectProtoOrFail, 0) && ret(SelectProtoOrFail, 0, 0) == nil && arg(SelectProtoOrFail, 0, 0) == proto
 //@ ensures result1 != nil ==> result0 == nil
+// safety half of "every identify-wait is eventually released": nothing blocks on the identify stream before the
+// stream carries the identify deadline (now + timeout) - the negotiation cannot wait forever on a silent remote
+//@ callsite SelectProtoOrFail#0 requires called(SetDeadline, 0) && arg(SetDeadline, 0, 0) == s && called(Now, 0) && arg(SetDeadline, 0, 1) == ret(Now, 0, 0) + timeout
 //@ noframe
 
 //@ func (ids *idService) identifyConn
